@@ -13,7 +13,7 @@ Stop == Len(h) >= D \/ failed \/ last = "check"
 GStep ==
     /\ ~Stop /\ ~done /\ UNCHANGED done
     /\ \/ \E s \in Scopes, e \in ExpSet : /\ NExp(s) < MaxExp /\ (LateExpect \/ NCalls = 0)
-                                          /\ CopiersPresent(s, e) /\ Unambiguous(WouldBe(s, e)) /\ Expect(s, e)
+                                          /\ CopiersPresent(s, e) /\ ComparatorsPresent(s, e) /\ Unambiguous(WouldBe(s, e)) /\ Expect(s, e)
                                           /\ Rec([op |-> "expect", s |-> s, e |-> e])
        \/ \E s \in Scopes, tn \in ObjTNames, md \in CmpModes : /\ NInst(s) < MaxInst /\ InstallComparator(s, tn, md)
                                                                 /\ Rec([op |-> "installcmp", s |-> s, tn |-> tn, md |-> md])
